@@ -1,4 +1,5 @@
 import ScnrVerif.Model.Dot
+import ScnrVerif.Proofs.DotText
 /-!
 # C18 — the DOT export is a faithful picture of the compiled automata (partial)
 
@@ -93,5 +94,25 @@ theorem one_node_per_state (A : Dfa) : (dotGraph A).nodes.length = A.trans.lengt
 def exA : Dfa := { trans := [[(0, 1)], [(1, 2)], []], ends := [(false, 0), (false, 0), (true, 1)], prio := [1] }
 example : dotGraph exA = ⟨[⟨0, 1, 0⟩, ⟨1, 0, 0⟩, ⟨2, 2, 1⟩], [⟨0, 1, 0⟩, ⟨1, 2, 1⟩]⟩ := by decide
 example : (decodeTrans (dotGraph exA), decodeEnds (dotGraph exA)) = exA.shown := by decide
+
+
+/-! ## The text layer (`Model/DotText.lean`): well-formedness is decided by a verified parser
+
+`parseDot` (lexer + parser for the DOT subset) and `decodeDot` run on the *text* of the real files on
+every check. `renderDot` is the text the crate writes for a document; the round trip shows that the
+parser accepts every such text and reads back exactly the document, for all automata. -/
+
+/-- parsing and decoding the rendered text of the picture of any compiled mode gives the picture back
+    (title and class labels: any strings without an unescaped quote / dangling backslash) -/
+theorem text_roundtrip (title : List Nat) (edgeText : Nat → List Nat) (M : ModeDfa)
+    (ht : strSafe title = true) (he : ∀ cc, strSafe (edgeText cc) = true) :
+    (parseDot (renderDot title edgeText (dotDoc M))).bind decodeDot = some (dotDoc M) :=
+  decodeDot_parseDot_renderDot_dotDoc title edgeText M ht he
+
+/-- the same for every well-formed document -/
+theorem text_roundtrip_doc (title : List Nat) (edgeText : Nat → List Nat) (d : DotDoc)
+    (hd : d.textOK = true) (ht : strSafe title = true) (he : ∀ cc, strSafe (edgeText cc) = true) :
+    (parseDot (renderDot title edgeText d)).bind decodeDot = some d :=
+  decodeDot_parseDot_renderDot title edgeText d hd ht he
 
 end Scnr.C18
